@@ -34,15 +34,70 @@ impl VarDecl {
             None => self.width,
         }
     }
-    pub fn full_mask(&self) -> u64 {
+    pub fn full_mask(&self) -> Bits {
         mask(self.bits() - 1, 0)
     }
 }
 
-pub fn mask(hi: usize, lo: usize) -> u64 {
-    debug_assert!(hi >= lo && hi < 64);
-    let w = hi - lo + 1;
-    (if w >= 64 { u64::MAX } else { (1u64 << w) - 1 }) << lo
+/// a set of flat bit positions (up to 256 bits: variables are at most 200 wide)
+#[derive(Clone, Copy, PartialEq, Eq, Default, Debug)]
+pub struct Bits(pub [u64; 4]);
+
+impl Bits {
+    pub const ZERO: Bits = Bits([0; 4]);
+    pub fn any(self) -> bool {
+        self.0.iter().any(|w| *w != 0)
+    }
+    pub fn none(self) -> bool {
+        !self.any()
+    }
+    pub fn bit(self, b: usize) -> bool {
+        self.0[b / 64] >> (b % 64) & 1 == 1
+    }
+}
+impl std::ops::BitAnd for Bits {
+    type Output = Bits;
+    fn bitand(self, o: Bits) -> Bits {
+        Bits([self.0[0] & o.0[0], self.0[1] & o.0[1], self.0[2] & o.0[2], self.0[3] & o.0[3]])
+    }
+}
+impl std::ops::BitOr for Bits {
+    type Output = Bits;
+    fn bitor(self, o: Bits) -> Bits {
+        Bits([self.0[0] | o.0[0], self.0[1] | o.0[1], self.0[2] | o.0[2], self.0[3] | o.0[3]])
+    }
+}
+impl std::ops::BitXor for Bits {
+    type Output = Bits;
+    fn bitxor(self, o: Bits) -> Bits {
+        Bits([self.0[0] ^ o.0[0], self.0[1] ^ o.0[1], self.0[2] ^ o.0[2], self.0[3] ^ o.0[3]])
+    }
+}
+impl std::ops::Not for Bits {
+    type Output = Bits;
+    fn not(self) -> Bits {
+        Bits([!self.0[0], !self.0[1], !self.0[2], !self.0[3]])
+    }
+}
+impl std::ops::BitOrAssign for Bits {
+    fn bitor_assign(&mut self, o: Bits) {
+        *self = *self | o;
+    }
+}
+impl std::ops::BitAndAssign for Bits {
+    fn bitand_assign(&mut self, o: Bits) {
+        *self = *self & o;
+    }
+}
+
+/// bits `lo..=hi`
+pub fn mask(hi: usize, lo: usize) -> Bits {
+    assert!(hi >= lo && hi < 256);
+    let mut b = [0u64; 4];
+    for i in lo..=hi {
+        b[i / 64] |= 1u64 << (i % 64);
+    }
+    Bits(b)
 }
 
 /// constant, or the enclosing loop variable plus an offset
@@ -94,7 +149,7 @@ impl Ref {
         }
     }
     /// flat bit mask (element-major) this reference denotes
-    pub fn mask(&self, vars: &[VarDecl], lv: Option<usize>) -> u64 {
+    pub fn mask(&self, vars: &[VarDecl], lv: Option<usize>) -> Bits {
         let v = &vars[self.var];
         let e = if v.array { self.elem.val(lv) } else { 0 };
         assert!(e < v.elems, "element out of range in generated design");
@@ -161,7 +216,7 @@ impl Expr {
                 if *w == 1 {
                     format!("1'b{}", v & 1)
                 } else {
-                    format!("{w}'d{}", v & mask(*w - 1, 0))
+                    format!("{w}'d{}", if *w >= 16 { *v } else { v & ((1u64 << w) - 1) })
                 }
             }
             Expr::D(h, l) => {
@@ -412,8 +467,8 @@ impl Design {
         let _ = writeln!(o, "module Top (");
         let _ = writeln!(o, "    clk : input  clock    ,");
         let _ = writeln!(o, "    sel : input  logic<16>,");
-        let _ = writeln!(o, "    lsel: input  logic<8> ,");
-        let _ = writeln!(o, "    d   : input  logic<8> ,");
+        let _ = writeln!(o, "    lsel: input  logic<200>,");
+        let _ = writeln!(o, "    d   : input  logic<200>,");
         for v in vars.iter().filter(|v| v.out) {
             let arr = if v.array { format!(" [{}]", v.elems) } else { String::new() };
             let _ = writeln!(o, "    {}: output {}{arr},", v.name, ty(v.width));
